@@ -142,15 +142,21 @@ class Driver:
         except Exception:
             return ['X', len(data)]
 
-    def write(self, sandbox, rel, cid):
+    def write(self, sandbox, rel, cid, age=3600):
+        """the data exist for a while when staging starts: a target staged a moment ago is newer"""
+        import time
         p = os.path.join(self.root, sbox_rel(sandbox), rel)
         os.makedirs(os.path.dirname(p), exist_ok=True)
         with open(p, 'w') as f:
             f.write('%d' % cid)
+        then = self.t_start - age          # all initial files carry the same time stamp
+        os.utime(p, (then, then))
 
     # ------------------------------------------------------------------
     def run(self, case):
         ru, rps, rpc, rsd = self.ru, self.rps, self.rpc, self.rsd
+        import time
+        self.t_start = time.time()
         shutil.rmtree(self.base, ignore_errors=True)
         self.root = os.path.join(self.base, 'R')
         for d in (self.root, self.tmp, self.cwd):
@@ -210,21 +216,24 @@ class Driver:
                 escaped.append('%s: %s' % (kind, type(e).__name__))
                 comp.advance(bulk, rps.FAILED, publish=True, push=False)
 
-        work('tsi', tasks)
-        stage, rec.pushed = rec.pushed, []
-        work('asi', stage)
-        stage, rec.pushed = rec.pushed, []
-        # "execution": the task writes its files, the executor sets the outcome
-        for task in stage:
-            t = task['_case']
-            os.makedirs(task['task_sandbox_path'], exist_ok=True)
-            for rel, cid in t.get('exec', []):
-                self.write(task['uid'], rel, cid)
-            task['target_state'] = t['outcome']
-            task['state'] = rps.AGENT_STAGING_OUTPUT_PENDING
-        work('aso', stage)
-        stage, rec.pushed = rec.pushed, []
-        work('tso', stage)
+        # the bulks pass through the four stagers one after the other
+        for b in sorted(set(t['_case'].get('bulk', 0) for t in tasks)):
+            rec.pushed = []
+            work('tsi', [t for t in tasks if t['_case'].get('bulk', 0) == b])
+            stage, rec.pushed = rec.pushed, []
+            work('asi', stage)
+            stage, rec.pushed = rec.pushed, []
+            # "execution": the task writes its files, the executor sets the outcome
+            for task in stage:
+                t = task['_case']
+                os.makedirs(task['task_sandbox_path'], exist_ok=True)
+                for rel, cid in t.get('exec', []):
+                    self.write(task['uid'], rel, cid, age=600)
+                task['target_state'] = t['outcome']
+                task['state'] = rps.AGENT_STAGING_OUTPUT_PENDING
+            work('aso', stage)
+            stage, rec.pushed = rec.pushed, []
+            work('tso', stage)
 
         for o in tobs:
             if 'states' not in o:
